@@ -34,6 +34,8 @@ from harness.evidence import Verdict
 PID = 'C17'
 MAX_SERIAL = 2958465
 N_MONTHS = 8100 * 12
+# quick: days 0..731, month starts 1902-01 .. 9999-12, days 2..31 of the last month
+QUICK_CAL_STATES = 732 + 8098 * 12 + 30
 STORE_CAP = 400          # violations kept verbatim (all are counted)
 PER_KIND_CAP = 3         # ... per (function, access path, exception type)
 _CALL = object()         # 'no result supplied: call the library function'
@@ -364,32 +366,46 @@ def run(tier, seed):
     phase = {}
     t0 = time.time()
 
-    # -- TLC: the calendar machine and the argument machines, side by side
+    # -- TLC.  quick: one run of Calendar_mc.cfg (all machines; the calendar
+    # machine is started in every century so that the search is wide).
+    # thorough: the 2 958 466-state chain in its own single-worker process,
+    # the argument machines beside it.
     out = {}
-    t_cal = threading.Thread(target=run_tlc, args=(
-        tier, ['cal'], random.Random(seed), 'cal', 1, quick, out))
-    t_arg = threading.Thread(target=run_tlc, args=(
-        tier, ['date', 'shift', 'time', 'yf'], random.Random(seed + 1), 'args',
-        4 if quick else 8, True, out))
-    t_cal.start()
-    t_arg.start()
-    t_arg.join()
+    if quick:
+        run_tlc(tier, ['cal', 'date', 'shift', 'time', 'yf'],
+                random.Random(seed), 'args', 8, True, out)
+        t_cal = None
+    else:
+        t_cal = threading.Thread(target=run_tlc, args=(
+            tier, ['cal'], random.Random(seed), 'cal', 1, False, out))
+        t_cal.start()
+        run_tlc(tier, ['date', 'shift', 'time', 'yf'], random.Random(seed + 1),
+                'args', 8, True, out)
     res = out['args']
     if isinstance(res, BaseException):
-        t_cal.join()
+        if t_cal:
+            t_cal.join()
         raise res
-    for act in ARG_ACTIONS:
+    for act in ARG_ACTIONS + (('NextDay', 'NextMonth') if quick else ()):
         if res.coverage.get(act, (0, 0))[1] == 0:
             raise tlc.MachineryFailure(f'vacuous: action {act} never taken')
-    v.add_tlc(res, 'Calendar args (date, shift, time, yf)')
+    v.add_tlc(res, 'Calendar_mc (all machines)' if quick
+              else 'Calendar_big (date, shift, time, yf)')
     phase['wait_tlc_args'] = round(time.time() - t0, 1)
-    if len(res.json) < res.distinct:
+    if len(res.json) < res.distinct - (0 if not quick else QUICK_CAL_STATES - N_MONTHS - 3):
         raise tlc.MachineryFailure(
             f'export incomplete: {len(res.json)} vectors for {res.distinct} states')
     by = {}
     for vec in res.json:
         by.setdefault(vec['t'], []).append(vec)
     res.stdout = ''
+    for kind, key in (('date', lambda x: (x['y'], x['m'], x['d'])),
+                      ('shift', lambda x: (x['n'], x['k'])),
+                      ('time', lambda x: x['s']),
+                      ('yf', lambda x: (x['a'], x['b'], x['basis'], x['swapped']))):
+        if len({key(x) for x in by.get(kind, [])}) != len(by.get(kind, [])):
+            # split chains that did not merge into one another
+            raise tlc.MachineryFailure(f'duplicate {kind} vectors in the export')
     sheet = Sheet()
     fbudget = dict(date=1500, shift=1500, time=1000, yf=400, cal=3000) if quick \
         else dict(date=20000, shift=20000, time=15000, yf=3000, cal=60000)
@@ -489,19 +505,19 @@ def run(tier, seed):
 
     # -- the calendar machine
     phase['drive_args'] = round(time.time() - t0, 1)
-    t_cal.join()
-    phase['wait_tlc_cal'] = round(time.time() - t0, 1)
-    cres = out['cal']
-    if isinstance(cres, BaseException):
-        raise cres
     if quick:
-        for act in ('NextDay', 'NextMonth'):
-            if cres.coverage.get(act, (0, 0))[1] == 0:
-                raise tlc.MachineryFailure(f'vacuous: action {act} never taken')
-    v.add_tlc(cres, 'Calendar cal (day-successor machine)')
-    day0, months, edge = months_from_export(cres.json, cres.distinct, tier)
-    cres.stdout = ''
-    cres.json = []
+        cal_lines = by.get('cal', []) + by.get('edge', [])
+        cal_distinct = None
+    else:
+        t_cal.join()
+        cres = out['cal']
+        if isinstance(cres, BaseException):
+            raise cres
+        v.add_tlc(cres, 'Calendar_big (cal: day-successor machine)')
+        cal_lines, cal_distinct = cres.json, cres.distinct
+        cres.stdout = ''
+    phase['wait_tlc_cal'] = round(time.time() - t0, 1)
+    day0, months, edge = months_from_export(cal_lines, cal_distinct, tier)
     r7, = rnd.sample(range(7), 1)
     jobs = [(c, 'quick' if quick else 'all', r7) for c in chunks(months, procs * 4)]
     ndays = 0
